@@ -41,6 +41,7 @@ fn tok() -> BoxedStrategy<Tok> {
         2 => Just(Tok::Any),
         3 => (any::<bool>(), prop::collection::vec(set_member(), 1..=3)).prop_map(|(n, v)| Tok::Set(n, v)),
         1 => Just(Tok::Lit(']')),
+        1 => crate::engine::gen::latin1_char().prop_map(Tok::Lit),
     ]
     .boxed()
 }
@@ -318,6 +319,53 @@ pub fn check(c: &Case, obs: &mut Obs) -> Result<(), String> {
     }
 }
 
+// ------------------------------------------------------------------ fast reject x other kinds
+
+/// dewey patterns with very short bases: the early rejection sits in Pattern only, so the
+/// stand-alone Dewey matcher is the reference ("never changes an answer for any kind of pattern")
+fn dewey_strategy(_t: Tier) -> BoxedStrategy<Case> {
+    let base = prop_oneof![
+        3 => prop::sample::select(vec!["", "R", "p", "-", "a-", "ab", "_", ".", "é", "1", "*", "?", "[", "P5"]).prop_map(String::from),
+        1 => crate::engine::gen::latin1_char().prop_map(|c| c.to_string()),
+        1 => "[a-zA-Z0-9._+-]{0,3}",
+    ];
+    (base, prop::sample::select(vec![">=", ">", "<", "<="]), prop::sample::select(vec!["1", "0", "2.0", "", "1nb1"]), prop::option::of((prop::sample::select(vec!["<", "<="]), prop::sample::select(vec!["3", "2"]))), 0u8..8, prop::sample::select(vec!["1", "2", "0.5", "2.0", "3", ""]))
+        .prop_map(|(b, op, v, upper, rel, ver)| {
+            let mut pattern = format!("{}{}{}", b, op, v);
+            if let Some((o2, v2)) = upper {
+                if op.starts_with('>') {
+                    pattern = format!("{}{}{}", pattern, o2, v2);
+                }
+            }
+            let nb = match rel {
+                0 => format!("x{}", b),
+                1 => b.to_uppercase(),
+                2 => b.chars().skip(1).collect(),
+                _ => b.clone(),
+            };
+            Case { pattern, name: format!("{}-{}", nb, ver) }
+        })
+        .boxed()
+}
+
+pub fn check_dewey(c: &Case, obs: &mut Obs) -> Result<(), String> {
+    let (Ok(p), Ok(d)) = (Pattern::new(&c.pattern), pkgsrc::Dewey::new(&c.pattern)) else {
+        obs.excluded = true;
+        return Ok(());
+    };
+    let (got, want) = (p.matches(&c.name), d.matches(&c.name));
+    obs.verdicts += 1;
+    if got != want {
+        return Err(format!(
+            "Pattern {:?} matches({:?}) = {} but the stand-alone Dewey matcher (no early rejection) says {}",
+            c.pattern, c.name, got, want
+        ));
+    }
+    obs.nontrivial = true;
+    obs.class(if want { "dewey-match" } else { "dewey-no-match" });
+    Ok(())
+}
+
 // ------------------------------------------------------------------ realistic stream
 
 fn real_strategy(_t: Tier) -> BoxedStrategy<Case> {
@@ -353,6 +401,7 @@ pub fn property() -> Property {
         streams: vec![
             random_stream("patterns", "grammar-generated glob / plain patterns against instances and mutations", case_strategy, |t| t.pick(200_000, 10_000_000), check),
             random_stream("dialect", "syntax of other glob dialects (POSIX classes, '^', backslash, ']' / '!' inside a set) against short names over the characters involved", dialect_strategy, |t| t.pick(20_000, 1_000_000), check),
+            random_stream("dewey-fast-reject", "dewey patterns with 0-3 character bases: Pattern (with the early rejection) against the stand-alone Dewey matcher", dewey_strategy, |t| t.pick(30_000, 1_000_000), check_dewey),
             random_stream("malformed", "malformed globs must be rejected at compile time", malformed_strategy, |t| t.pick(200, 2_000), check),
             random_stream("realistic", "real pkgsrc glob / plain patterns (sample of tests/data/pkgdeps.txt) against real package names built on their literal prefix", real_strategy, |t| t.pick(60_000, 5_000_000), check),
             crate::fuzz::replay_stream(),
